@@ -288,6 +288,62 @@ def ownership_obligations(world, prop='C08'):
     return obs
 
 
+# C13: GriddedPSFModel.copy() hands every attribute except the parameters to the copy *by
+# reference* (documented: the ePSF grid is not copied), so the copy and the original stay
+# independent only while no method writes into one of those shared objects in place.
+COPY_SHARING = [
+    # (file, class, memo caches: keyed inserts of values computed from the shared, never-written
+    #  grid -- the same entry whoever fills it)
+    ('photutils/psf/gridded_models.py', 'GriddedPSFModel', ('_interpolator',)),
+]
+
+
+def copy_ownership_obligations(world, prop='C13'):
+    obs = []
+    for rel, cname, memo in COPY_SHARING:
+        m = world.modules.get(rel)
+        cls = m.classes.get(cname) if m else None
+        cp = world.find_method(cls, 'copy') if cls else None
+        oid = f'effects:{rel}::{cname}.copy/ownership'
+        if cp is None:
+            obs.append(Obligation(oid, prop, 'effects', LOST, detail='copy not found',
+                                  functions=[f'{rel}::{cname}.copy']))
+            continue
+        # shape of copy(): newcls.__dict__[key] = val for the attributes that are not parameters
+        shares = any(isinstance(n, ast.Assign) and isinstance(n.targets[0], ast.Subscript)
+                     and _dotted(n.targets[0].value).endswith('.__dict__')
+                     and isinstance(n.value, ast.Name) for n in ast.walk(cp.node))
+        if not shares:
+            obs.append(Obligation(oid, prop, 'effects', LOST, functions=[cp.target],
+                                  detail='copy() no longer has the share-by-reference shape'))
+            continue
+        mutated = {}
+        for k in cls.mro(world):
+            for fi in k.methods.values():
+                if fi.name in ('__init__', '__new__'):
+                    continue
+                for e in fi.effects.values():
+                    if e.origin.startswith('F:'):
+                        a = e.origin[2:].rstrip('/')
+                        if a not in memo:
+                            mutated.setdefault(a, []).append((fi.qualname, e))
+        fhash = src_hash(ast.dump(cp.node))
+        text = (f'{cname}.copy() shares every non-parameter attribute with the original by '
+                f'reference; no method of the class writes into one of them in place (memo caches '
+                f'{list(memo)} excepted: keyed inserts of values computed from the shared grid)')
+        if not mutated:
+            obs.append(Obligation(oid, prop, 'effects', DISCHARGED, backend='effects',
+                                  functions=[f'{cp.target}#{fhash}'], text=text))
+        for a, lst in sorted(mutated.items()):
+            who = sorted({q for q, _ in lst})
+            obs.append(Obligation(f'{oid}:{a}', prop, 'effects', REFUTED, backend='effects',
+                                  functions=[f'{cp.target}#{fhash}'], text=text,
+                                  detail=f'attribute {a} is shared between a model and its copy() and '
+                                         f'written in place by {who}: {lst[0][1].desc}',
+                                  model={'attribute': a, 'mutators': who}))
+    return obs
+
+
 def shared_by_reference(fnode):
     """Attributes set on the child with `setattr(newcls, attr, getattr(self, attr))` for attr in a
     literal tuple, minus those re-assigned afterwards from a fresh value (copy / index)."""
@@ -861,6 +917,8 @@ def run(prop, tier):
                                       text=f'{t}: no in-place write reaches {only[t]}'))
     if prop == 'C08':
         obs += ownership_obligations(world, 'C08')
+    if prop == 'C13':
+        obs += copy_ownership_obligations(world, 'C13')
     obs += loop_obligations(world, prop)
     if prop == 'C06':
         obs += schedule_obligations(world, prop)
